@@ -9,7 +9,7 @@ use crate::{
         functions::format_function_body,
         general::{
             format_contained_punctuated_multiline, format_contained_span, format_punctuated,
-            format_symbol, format_token_reference,
+            format_symbol, format_token, format_token_reference, FormatTokenType,
         },
         table::{create_table_braces, format_multiline_table, format_singleline_table, TableType},
         trivia::{
@@ -799,6 +799,10 @@ fn hang_type_info_binop(
     shape: Shape,
     next_comments: Vec<Token>,
 ) -> TokenReference {
+    // The comments that are moved are formatted (trailing whitespace, line endings) like any other comment
+    let format_comment =
+        |comment: &Token| format_token(ctx, comment, FormatTokenType::LeadingTrivia, shape).0;
+
     // Get the leading comments of a binop, as we need to preserve them
     // Intersperse a newline and indent trivia between them
     // iter_intersperse is currently not available, so we need to do something different. Tracking issue: https://github.com/rust-lang/rust/issues/79524
@@ -809,7 +813,7 @@ fn hang_type_info_binop(
             vec![
                 create_newline_trivia(ctx),
                 create_indent_trivia(ctx, shape),
-                x.to_owned(),
+                format_comment(x),
             ]
         })
         // If there are any comments trailing the BinOp, we need to move them to before the BinOp
@@ -818,14 +822,14 @@ fn hang_type_info_binop(
                 .trailing_trivia()
                 .filter(|token| trivia_is_comment(token))
                 // Prepend a single space beforehand
-                .flat_map(|x| vec![Token::new(TokenType::spaces(1)), x.to_owned()]),
+                .flat_map(|x| vec![Token::new(TokenType::spaces(1)), format_comment(x)]),
         )
         // If there are any leading comments to the RHS expression, we need to move them to before the BinOp
         .chain(next_comments.iter().flat_map(|x| {
             vec![
                 create_newline_trivia(ctx),
                 create_indent_trivia(ctx, shape),
-                x.to_owned(),
+                format_comment(x),
             ]
         }))
         // Create a newline just before the BinOp, and preserve the indentation
